@@ -54,6 +54,6 @@ def run(tier: str) -> Check:
     if ok and not getattr(check, "deferred", []):
         check.floor("module_skeletons", 5)
         check.floor("template_holes", 300)
-        check.floor("compiled_constant_pairs", 4)
+        check.floor("compiled_constant_pairs", 1)  # a vacuity guard: classes that share one compile site are a legitimate restructuring
         check.floor("generator_functions", 35)
     return check
